@@ -202,7 +202,12 @@ theorem keepsE (env : Env) (e : Expr) (hc : coreE e = true) : ∀ cx g, Keeps (i
     have ih2 := keepsArms env arms hc.2
     simp only [infer]
     repeat' (first | exact ih1 _ _ | exact ih2 _ _ _ _ | keeps_step)
-  | mcall _ _ _ | cassign _ _ _ _ _ | fstr _ => simp [coreE] at hc
+  | cassign op ic x p e =>
+    simp only [coreE, Bool.and_eq_true] at hc
+    have ih := keepsE env e hc.2
+    simp only [infer]
+    repeat' (first | exact keeps_binopWith env _ op (fun τ => by unfold pathAsExpr; repeat' keeps_step) (fun τ => ih _ _) | keeps_step)
+  | mcall _ _ _ | fstr _ => simp [coreE] at hc
 termination_by sizeOf e
 
 theorem keepsArms (env : Env) (arms : List Arm) (hc : coreA arms = true) :
